@@ -211,6 +211,25 @@ def status_of(fb, v, conds, enum_suffix='ClockStatus'):
     return None
 
 
+def reaches_call(fb, body, pred, seen=None, depth=0):
+    """does `body`, directly or through workspace callees (and closures), call something
+    whose declared or resolved path satisfies pred?"""
+    seen = seen if seen is not None else set()
+    if body.path in seen or depth > 6:
+        return False
+    seen.add(body.path)
+    for bb, t, fn in user_calls(body):
+        if not fn:
+            continue
+        nm = mir.callee_name(fn)
+        if pred(fn['path']) or pred(nm):
+            return True
+        nb = fb.body(nm) or (fb.body(fn['path']) if fn.get('defkind') == 'Closure' else None)
+        if nb is not None and reaches_call(fb, nb, pred, seen, depth + 1):
+            return True
+    return False
+
+
 def user_calls(body):
     """call sites that are not part of a tracing/log expansion"""
     for bb, t, fn in body.calls():
